@@ -62,12 +62,34 @@ theorem C07_frames_not_interleaved (cfg : Cfg) (hser : cfg.serialised = true) (a
 
 /-- the same as a decidable check (what the driver's monitor evaluates on real byte streams) -/
 theorem C07_framed (cfg : Cfg) (hser : cfg.serialised = true) (as : List Act) (s : St)
-    (h : run cfg init as = some s) : framed cfg.lens (glue s.wire) = true := by
-  have inv := inv_run cfg hser as init s (inv_init cfg) h
-  simp only [framed, Bool.and_eq_true, List.all_eq_true, decide_eq_true_eq, beq_iff_eq]
-  refine ⟨fun c hc => ?_, inv.acc.nodup⟩
-  obtain ⟨h0, hpos, hn⟩ := inv.acc.acct c hc
-  exact ⟨⟨h0, hpos⟩, by rw [hn]; exact inv.acc.bound c.id⟩
+    (h : run cfg init as = some s) : framed cfg.lens (glue s.wire) = true :=
+  framed_of_inv cfg s (inv_run cfg hser as init s (inv_init cfg) h)
+
+/-! ### the monitor's online check of a byte stream (`Writer.scan`, used by the driver on `trace2` lines) -/
+
+/-- soundness of the monitor w.r.t. the machine: it accepts the byte stream of every reachable state (so a
+    rejected stream is not a behaviour of the model: no false alarm relative to the model) … -/
+theorem C07_monitor_accepts_reachable (cfg : Cfg) (hser : cfg.serialised = true) (as : List Act) (s : St)
+    (h : run cfg init as = some s) : scan cfg.lens s.wire = some (glue s.wire) :=
+  scan_run cfg hser as init s (inv_init cfg) rfl h
+
+/-- … what it accepts is framed (distinct frame prefixes, each from byte 0: not interleaved) … -/
+theorem C07_monitor_accept_means_framed (lens : Nat → Nat) (wire : List Piece) (cs : List Chunk)
+    (h : scan lens wire = some cs) : cs = glue wire ∧ (wire ≠ [] → framed lens cs = true) :=
+  scanFrom_some lens wire [] cs h
+
+/-- … and a rejection names a prefix of the byte stream that is not framed (the concrete failing history) -/
+theorem C07_monitor_reject_means_unframed_prefix (lens : Nat → Nat) (wire : List Piece)
+    (h : scan lens wire = none) : ∃ pre, pre <+: wire ∧ framed lens (glue pre) = false :=
+  scanFrom_none lens wire [] h
+
+/-- clause `bytes-after-return`: once a request has returned, its control state is final and no byte of its
+    frame reaches the wire any more -/
+theorem C07_no_bytes_after_return (cfg : Cfg) (hser : cfg.serialised = true) (as bs : List Act) (s s' : St)
+    (h : run cfg init as = some s) (w n : Nat) (ok : Bool) (hd : s.pc w = .done n ok)
+    (h' : run cfg s bs = some s') :
+    s'.pc w = .done n ok ∧ s'.wire.filter (·.id = w) = s.wire.filter (·.id = w) :=
+  done_run cfg hser w n ok bs s s' (inv_run cfg hser as init s (inv_init cfg) h) hd h'
 
 /-- the semaphore is NECESSARY: the same machine without it (`serialised := false`) interleaves two frames
     on a transport that takes a Write in pieces, while both writers are told `n == len, err == nil`. -/
@@ -113,6 +135,20 @@ theorem C07_whole_frames (cfg : Cfg) (hser : cfg.serialised = true) (as : List A
       cases ok with
       | false => exact Or.inl (inv.failedClosing c.id n hp (by omega))
       | true => have := inv.okFull c.id n (Or.inr hp); omega
+
+/-- clause `torn-but-open` (evaluated at the check points `i` of a trace: socket open, nobody inside
+    closeWithError, i.e. not closing, and — at quiescence — no caller between its failed write and
+    closeWithError): every incomplete frame on the wire is one whose Write is still in progress. -/
+theorem C07_quiescent_open_means_whole (cfg : Cfg) (hser : cfg.serialised = true) (as : List Act) (s : St)
+    (h : run cfg init as = some s) (hopen : s.closing = false)
+    (hq : ∀ w n, s.pc w ≠ .wrote n false ∧ s.pc w ≠ .failing n) :
+    ∀ c ∈ glue s.wire, c.n < cfg.lens c.id → s.pc c.id = .inWrite c.n := by
+  intro c hc hlt
+  rcases (C07_whole_frames cfg hser as s h).2.2 c hc hlt with h1 | h1 | h1 | h1
+  · rw [hopen] at h1; cases h1
+  · exact h1
+  · exact absurd h1 (hq c.id c.n).1
+  · exact absurd h1 (hq c.id c.n).2
 
 theorem C07_torn_writer_progress (cfg : Cfg) (s : St) (w n : Nat) (h : s.pc w = .wrote n false) :
     ∃ s1 s2, step cfg s (.ret w) = some s1 ∧ step cfg s1 (.close w) = some s2 ∧ s2.closing = true :=
